@@ -104,6 +104,13 @@ def make_ns(n, kind):
     elif kind == "reversed":
         ns = TaxonNamespace(list(reversed(labs)))
         taxa = list(reversed(list(ns)))
+    elif kind == "case":
+        # two taxa whose labels differ in case only (default, case-insensitive namespace): a label names both of them
+        labs = list(labs)
+        if n >= 3:
+            labs[2] = labs[1].lower()
+        ns = TaxonNamespace(labs)
+        taxa = list(ns)
     else:
         raise ValueError(kind)
     return ns, taxa, {t: i for i, t in enumerate(ns)}
@@ -300,6 +307,11 @@ def eval_source(spec, quick_subsets=None, variants_inplace=INPLACE, variants_ext
     src_has_unif = has_unifurcation(src._seed_node)
     skey = spec_key(spec)
     subsets = quick_subsets if quick_subsets is not None else [c for r in range(1, n + 1) for c in itertools.combinations(range(n), r)]
+    if spec.get("ns") == "case":
+        # requests that keep (or drop) case variants of one label TOGETHER: then "the taxa with these labels" means the same under either
+        # reading, and the label routes have to agree with the taxon routes
+        low = [l.lower() for l in labels]
+        subsets = [c for c in subsets if all((low[i] in set(low[j] for j in c)) == (i in c) for i in range(n))]
     for sub in subsets:
         keep_labels = [labels[i] for i in sub]
         ks = frozenset(keep_labels)
@@ -824,6 +836,7 @@ def t2(ctx):
         s = dict(s)
         s["rootlen"] = 0.125
         sp.append(s)
+    sp += _specs(n2, ["dyadic"], (None, True), nss=("case",), nmin=3)
     _run_scope(ctx, "induced@namespaces<=%d" % n2,
                "shapes <=%d leaves x {dyadic, onemissing} x 3 rooting states x namespaces {two extra taxa, two removed taxa, reversed} "
                "plus sources whose seed edge has a length, x every subset x options x 11 variants; non-trivial = >=3 leaves and proper subset" % n2,
@@ -892,8 +905,7 @@ def replay(ctx, rec):
     spec = w["spec"]
     spec["shape"] = _tup(spec["shape"])
     if kind == "subsets":
-        n = n_leaves(spec["shape"])
-        labels = LABELS[:n]
+        labels = [l.taxon.label for l in S.leaves(mk(spec)[0]._seed_node)]
         sub = tuple(labels.index(x) for x in w["keep"])
         v = w.get("variant")
         kw = dict(quick_subsets=[sub], sups=(bool(w["sup"]),))
